@@ -10,6 +10,7 @@ import (
 	"fmt"
 	"go/constant"
 	"go/token"
+	"go/types"
 	"sort"
 	"strings"
 
@@ -490,6 +491,15 @@ func (dc *delimCtx) lexerScanners() {
 				bi = i
 			}
 		}
+		// the verdict may also be the type of the token to build: ILLEGAL on the end-of-input exit
+		tokTypeVerdict := false
+		if bi < 0 {
+			for i := 0; i < res.Len(); i++ {
+				if nt, ok := res.At(i).Type().(*types.Named); ok && nt.Obj().Name() == "TokenType" && nt.Obj().Pkg() != nil && shortPkg(nt.Obj().Pkg().Path()) == "token" {
+					bi, tokTypeVerdict = i, true
+				}
+			}
+		}
 		if bi < 0 {
 			dc.s.Violation(dc.rule, key, m.Pos(fn.Pos()), "%s scans until its terminator or the end of the input but returns nothing that tells the two apart: an unterminated construct is accepted silently", fnKey(fn))
 			continue
@@ -505,6 +515,12 @@ func (dc *delimCtx) lexerScanners() {
 			rets := returnsInState(li, ev)
 			for _, r := range rets {
 				v := r.Results[bi]
+				if tokTypeVerdict {
+					if c, ok := v.(*ssa.Const); !ok || c.Value == nil || c.Int64() != tv["ILLEGAL"] {
+						verdict = fmt.Sprintf("returns the token type %s at %s on the path where the loop ends because the input ended, not ILLEGAL", valueDesc(v), m.InstrPos(r))
+					}
+					continue
+				}
 				if c, ok := v.(*ssa.Const); ok && c.Value != nil {
 					if constant.BoolVal(c.Value) {
 						verdict = fmt.Sprintf("returns constant true at %s on the path where the loop ends because the input ended", m.InstrPos(r))
@@ -550,6 +566,18 @@ func (dc *delimCtx) lexerScanners() {
 				}
 			}
 			okIllegal := false
+			if bv != nil && tokTypeVerdict {
+				// the verdict is the token's type: it is what newToken is given
+				for _, r := range *bv.Referrers() {
+					if c, isC := r.(*ssa.Call); isC && c.Call.StaticCallee() == newTok && len(c.Call.Args) > 1 && c.Call.Args[1] == bv {
+						okIllegal = true
+					}
+				}
+				if okIllegal {
+					dc.s.OK(dc.rule, ck, m.InstrPos(call), "the token type %s returns is the type newToken is given", name)
+					continue
+				}
+			}
 			if bv != nil {
 				for _, blk := range failureTargets(bv) {
 					// the failure block (or its successors up to a return) builds an ILLEGAL token
@@ -663,6 +691,18 @@ func returnsInState(li *loopInfo, ev condEval) []*ssa.Return {
 			out = append(out, t)
 		case *ssa.If:
 			known, val := evalCond(t.Cond, ev, b)
+			if !known {
+				// `l.char == quote` with quote the character the scanner started on (loaded before the loop): at the
+				// end of the input the current character is NUL, the delimiter a byte that was read
+				if bo, ok := t.Cond.(*ssa.BinOp); ok && (bo.Op == token.EQL || bo.Op == token.NEQ) {
+					for _, pair := range [][2]ssa.Value{{bo.X, bo.Y}, {bo.Y, bo.X}} {
+						ld, isLd := pair[1].(*ssa.UnOp)
+						if isCharLoad(pair[0]) && li.body[pair[0].(ssa.Instruction).Block()] && isLd && isCharLoad(ld) && !li.body[ld.Block()] {
+							known, val = true, bo.Op == token.NEQ
+						}
+					}
+				}
+			}
 			if known {
 				if val {
 					stack = append(stack, b.Succs[0])
